@@ -16,5 +16,9 @@ Plans ==
     \cup {[site |-> "contribute.req", from |-> pr[1], to |-> pr[2], kind |-> f] : pr \in Pairs, f \in MsgFaults}
     \cup {[site |-> "contribute.rep", from |-> pr[2], to |-> pr[1], kind |-> c.name] : pr \in Pairs, c \in ContribFaults}
     \cup {[site |-> "contribute.rep", from |-> pr[2], to |-> pr[1], kind |-> "errreply"] : pr \in Pairs}
+    \* duplicate delivery of a message (the second copy arrives right after the first)
+    \cup {[site |-> "prepare", from |-> Initiator, to |-> p, kind |-> "dup"] : p \in P}
+    \cup {[site |-> "execute", from |-> Initiator, to |-> p, kind |-> "dup"] : p \in P}
+    \cup {[site |-> "contribute.req", from |-> pr[1], to |-> pr[2], kind |-> "dup"] : pr \in Pairs}
 ASSUME JsonSerialize(OutFile, [plans |-> Plans, count |-> Cardinality(Plans)])
 =============================================================================
